@@ -557,6 +557,143 @@ def literal_encoding(ctx, py: PyRepo):
             ctx.require(False, f'literal numbering is not linear: {ex}')
 
 
+def clauses_stage_contract(ctx, py: PyRepo, max_k: int = 4):
+    """to_clauses re-associates with proofs built by a loop over the run-time length of the left operand.  Bounded decision: for
+    every length k = 1..max_k of that operand the loop is unrolled in the syntax tree (k - 2 copies of its body, the counter a
+    constant) and the unrolled function is typed against the stage contract like the other stages: assuming the recursive calls
+    return clause lists with proofs of `T(arg) -> CC(list)` and back, the result is the concatenation with proofs of
+    `T(term) -> CC(left + right)` and back (CC = right-nested conjunction of right-nested disjunctions).  Longer operands run the
+    same body more often and are not decided."""
+    import copy
+    from ..core import schema as S
+    from ..core.pyeval import PyEval, show
+    src_fn = py.method('Tautology', 'to_clauses')
+    where = py.where('tautology', src_fn)
+    sc = S.SchemaChecker(py, ['Propositional', 'Tautology'])
+    N = sc.N
+    SELF = ('param', 'self')
+    TERM_NAME = src_fn.args.args[1].arg
+    TERM = ('param', TERM_NAME)
+
+    def atom(n):
+        return ('P', 'Symbol', ('str', '$' + n))
+
+    def foldr(op, xs, tail=None):
+        xs = list(xs) + ([tail] if tail is not None else [])
+        t = xs[-1]
+        for x in reversed(xs[:-1]):
+            t = N.apply(op, [x, t])
+        return t
+
+    class Unroll(ast.NodeTransformer):
+        def __init__(self, k):
+            self.k, self.i = k, None
+
+        def _int(self, e):
+            if isinstance(e, ast.Constant) and isinstance(e.value, int):
+                return e.value
+            if isinstance(e, ast.Name) and e.id == 'l':
+                return self.k
+            if isinstance(e, ast.BinOp) and isinstance(e.op, (ast.Add, ast.Sub)):
+                a, b = self._int(e.left), self._int(e.right)
+                return None if a is None or b is None else (a + b if isinstance(e.op, ast.Add) else a - b)
+            return None
+
+        def visit_For(self, node):
+            if isinstance(node.target, ast.Name) and isinstance(node.iter, ast.Call) and ast.unparse(node.iter.func) == 'range':
+                bounds = [self._int(a) for a in node.iter.args]
+                if bounds and all(b is not None for b in bounds):
+                    out = []
+                    for j in range(*bounds):
+                        self.i = (node.target.id, j)
+                        for st in node.body:
+                            out.append(self.visit(copy.deepcopy(st)))
+                        self.i = None
+                    return out or ast.Pass()
+            return self.generic_visit(node)
+
+        def visit_If(self, node):
+            t = node.test
+            if isinstance(t, ast.Compare) and len(t.ops) == 1:
+                a, b = self._int(t.left), self._int(t.comparators[0])
+                if a is not None and b is not None and 'l' in ast.unparse(t):
+                    val = {ast.Gt: a > b, ast.GtE: a >= b, ast.Lt: a < b, ast.LtE: a <= b, ast.Eq: a == b, ast.NotEq: a != b}.get(type(t.ops[0]))
+                    if val is not None:
+                        out = []
+                        for st in (node.body if val else node.orelse):
+                            r = self.visit(st)
+                            out.extend(r if isinstance(r, list) else [r])
+                        return out or ast.Pass()
+            return self.generic_visit(node)
+
+        def visit_Assert(self, node):
+            return ast.Pass()
+
+        def visit_BinOp(self, node):
+            node = self.generic_visit(node)
+            if isinstance(node.op, (ast.Add, ast.Sub)) and isinstance(node.left, ast.Constant) and isinstance(node.right, ast.Constant) \
+                    and isinstance(node.left.value, int) and isinstance(node.right.value, int):
+                return ast.Constant(node.left.value + node.right.value if isinstance(node.op, ast.Add) else node.left.value - node.right.value)
+            return node
+
+        def visit_Name(self, node):
+            if self.i and node.id == self.i[0] and isinstance(node.ctx, ast.Load):
+                return ast.Constant(self.i[1])
+            return node
+
+    n = 0
+    for branch, op in (('CFAnd', '_and'), ('CFOr', '_or')):
+        for k in range(1, max_k + 1):
+            fn = Unroll(k).visit(copy.deepcopy(src_fn))
+            ast.fix_missing_locations(fn)
+            try:
+                paths = [p for p in PyEval().paths(fn) if p.end[0] == 'return'
+                         and dict(p.conds).get(('call', ('name', 'isinstance'), (TERM, ('name', branch)), ())) is True]
+            except Exception as ex:  # noqa: BLE001 - the unrolled tree left the evaluated subset
+                ctx.require(False, f'to_clauses unrolled for k={k}: {ex}')
+            ctx.require(len(paths) == 1, f'to_clauses/{branch} unrolled for k={k}: expected one returning path, found {len(paths)}')
+            rv = paths[0].end[1]
+            lst, pf1, pf2 = rv[1]
+            recs = {}
+            for v in _walk(rv):
+                if v[0] == 'call' and v[1] == ('attr', SELF, 'to_clauses') and len(v[2]) == 1 and v[2][0][0] == 'attr' and v[2][0][1] == TERM:
+                    recs[v[2][0][2]] = v
+            ctx.require(set(recs) == {'left', 'right'}, 'to_clauses: recursive calls on term.left / term.right not found')
+            TL, TR = atom('TL'), atom('TR')
+            parts = [atom(f'c{i}') for i in range(k)]
+            RR = atom('RR')
+            if branch == 'CFAnd':
+                cc_l, cc_r = foldr('_and', parts), RR                 # k clauses on the left, any non-empty list on the right
+                want_list = lst == ('binop', 'Add', ('item', recs['left'], 0), ('item', recs['right'], 0))
+            else:
+                cc_l, cc_r = foldr('_or', parts), RR                  # one clause of k literals on the left, one clause on the right
+                want_list = lst[0] == 'list' and len(lst[1]) == 1 and lst[1][0][0] == 'binop' and lst[1][0][1] == 'Add' \
+                    and ('item', recs['left'], 0) in list(_walk(lst[1][0][2])) and ('item', recs['right'], 0) in list(_walk(lst[1][0][3]))
+            t_in = N.apply(op, [TL, TR])
+            t_out = foldr(op, parts, RR)
+            ov = {('item', recs['left'], 1): ('pf', ('P', 'Implies', TL, cc_l)), ('item', recs['left'], 2): ('pf', ('P', 'Implies', cc_l, TL)),
+                  ('item', recs['right'], 1): ('pf', ('P', 'Implies', TR, cc_r)), ('item', recs['right'], 2): ('pf', ('P', 'Implies', cc_r, TR))}
+            ty = S.Typer(sc, {}, 'to_clauses', 'Tautology')
+            ty.overrides = ov
+            tag = f'to_clauses/{branch}/k={k}'
+            n += 1
+            try:
+                got1, got2 = ty.pf(pf1), ty.pf(pf2)
+                bad = []
+                if not want_list:
+                    bad.append(f'the list returned is {show(lst)[:80]}, not the concatenation of the two results')
+                if got1 != ('P', 'Implies', t_in, t_out):
+                    bad.append(f'the first proof concludes {S.tshow(got1)[:300]}, the contract is {S.tshow(("P", "Implies", t_in, t_out))[:300]}')
+                if got2 != ('P', 'Implies', t_out, t_in):
+                    bad.append(f'the second proof concludes {S.tshow(got2)[:300]}, the contract is {S.tshow(("P", "Implies", t_out, t_in))[:300]}')
+                ctx.ob('stage-contract', tag, not bad, f'with {k} {"clause(s)" if branch == "CFAnd" else "literal(s)"} on the left: ' + '; '.join(bad), where)
+            except S.Violation as v:
+                ctx.ob('stage-contract', tag, False, f'with {k} on the left the re-association does not type-check: {v}', where)
+            except S.Decline as d:
+                ctx.decline(tag, str(d))
+    ctx.analysed['to_clauses unrolled cases'] = n
+
+
 def cnf_shape(ctx, py: PyRepo):
     """advertised shape of to_cnf, by induction on the recursion: assuming every recursive call returns a term in CNF, every return
     does.  Shapes: LIT (variable) < CLAUSE (tree of ORs over literals) < CNF ; AND = CNF whose root is a conjunction.  A CNF term whose
@@ -660,6 +797,7 @@ def run(ctx):
     form_stage_contract(ctx, py, 'propag_neg')
     form_stage_contract(ctx, py, 'to_cnf')
     literal_encoding(ctx, py)
+    clauses_stage_contract(ctx, py)
     cnf_shape(ctx, py)
     fold_direction(ctx, py)
     ctx.floor('cnf-shape', 5)
